@@ -1964,3 +1964,239 @@ def k_output_frame(E, tier):
             worst["marker"] or _structural(True))
     rec.add("only trailing newlines and, in compressed style only, one `;` are removed from the end, and at most one newline is appended", worst["trim"] or _structural(True))
     return rec
+
+
+def k_rgba_name(E, tier):
+    """C33 (colour names): a name printed for a colour denotes that colour.  Rgba::name looks the key 0x00RRGGBB up in
+    LOOKUP.v2n; Rgba::from_name (what a reader of the CSS text does with the name, and what rsass itself does when the
+    name is parsed back) looks the name up in LOOKUP.n2v and unpacks the same three bytes; Lookup::from_slice puts every
+    table row (n, v) into both maps (n2v[n] = v, v2n[v] = first n); the table's names are pairwise distinct lower-case
+    ASCII words.  Together: name(c) = Some(n) implies from_name(n) has the bytes of c."""
+    f_name = E.find(name_re=r"^rgba::<impl at .*>::name$", contains=["Rgba::try_bytes"])
+    rec = Rec("Rgba::name / Rgba::from_name / Lookup::from_slice and the LOOKUP table", f_name, E)
+
+    def need(**kw):
+        try:
+            return E.find(**kw)
+        except sym.Unsupported as e:
+            rec.notes.append(str(e)[:200])
+            return None
+
+    f_key = need(name_re=r"^rgba::<impl at .*>::name::\{closure#\d+\}$", contains=["from_be_bytes"])
+    f_get = need(name_re=r"^rgba::<impl at .*>::name::\{closure#\d+\}$", contains=["BTreeMap::<u32, &str>::get"])
+    f_from = need(name_re=r"^rgba::<impl at .*>::from_name$")
+    f_unpack = need(name_re=r"^rgba::<impl at .*>::from_name::\{closure#\d+\}$", contains=["Rgba::new"])
+    f_slice = need(name_re=r"^rgba::<impl at .*>::from_slice$")
+    f_init = need(name_re=r"^LOOKUP::\{closure#0\}$")
+    if not all((f_key, f_get, f_from, f_unpack, f_slice, f_init)):
+        _inconclusive(rec, "the six functions of the name table are found")
+        return rec
+
+    def m_from_be(ex, st, c, a, d):
+        arr = _full(ex, st, a[0])
+        bs = [arr.fields.get(str(k)) for k in range(4)] if isinstance(arr, sym.Agg) else []
+        if len(bs) != 4 or not all(isinstance(x, sym.Scalar) for x in bs):
+            raise sym.Unsupported("from_be_bytes of an unrecognised array")
+        return sym.Scalar(("bv", 32, False), "(concat %s %s %s %s)" % tuple(x.term for x in bs))
+
+    def m_to_be(ex, st, c, a, d):
+        v = _full(ex, st, a[0])
+        if not isinstance(v, sym.Scalar):
+            raise sym.Unsupported("to_be_bytes of a non-scalar")
+        return sym.Agg("[u8; 4]", None, {str(k): sym.Scalar(("bv", 8, False), "((_ extract %d %d) %s)" % (31 - 8 * k, 24 - 8 * k, v.term)) for k in range(4)})
+
+    # ---- 1. name(): try_bytes -> key closure -> lookup closure, nothing else -----------------------------------------
+    ctx = E.ctx()
+    r, g, b = (ctx.fresh_scalar(("bv", 8, False), n) for n in ("red", "green", "blue"))
+    me = sym.Opaque("Rgba", "self", ctx)
+    log = []
+
+    def m_try_bytes(ex, st, c, a, d):
+        log.append(("try_bytes", _full(ex, st, a[0])))
+        return sym.Agg(d, "Some", {"0": sym.Agg("tuple", None, {"0": r, "1": g, "2": b})}, 1)
+
+    def m_map(ex, st, c, a, d):
+        log.append(("map", c, a[0]))
+        return sym.Opaque(d or "Option<u32>", "mapped", ctx)
+
+    def m_and_then(ex, st, c, a, d):
+        log.append(("and_then", c, a[0]))
+        return sym.Opaque(d or "Option<&str>", "looked-up", ctx)
+
+    models = [(r"^Rgba::try_bytes$", m_try_bytes), (r"^Option::<\(u8, u8, u8\)>::map::<u32,", m_map), (r"^Option::<u32>::and_then::<&str,", m_and_then)] + BASE_MODELS
+    ex = sym.Executor(ctx, models=models, feasibility=E.feasibility(ctx), max_paths=20)
+    paths = [p for p in ex.run(f_name, [sym.Ref("val", me)]) if p.status == "return"]
+    rec.paths += len(paths)
+    span = lambda f: re.search(r"rgba\.rs:(\d+:\d+: \d+:\d+)", f.name if "closure@" in f.name else f.source().split("\n", 1)[0])  # noqa: E731
+
+    def closure_span(f):
+        m = re.search(r"_1: &?\{closure@[^}]*?rgba\.rs:(\d+:\d+: \d+:\d+)\}", f.source().split("\n", 1)[0])
+        return m.group(1) if m else None
+
+    ok = (len(paths) == 1 and [x[0] for x in log] == ["try_bytes", "map", "and_then"] and log[0][1] is me
+          and closure_span(f_key) and closure_span(f_key) in log[1][1] and closure_span(f_get) and closure_span(f_get) in log[2][1]
+          and isinstance(log[2][2], sym.Opaque) and log[2][2].name == "mapped" and paths[0].ret is not None and getattr(paths[0].ret, "name", None) == "looked-up")
+    rec.add("Rgba::name: the byte triple of try_bytes(self) is mapped by the key closure and the key is looked up by the lookup closure; the result is returned unchanged", _structural(bool(ok)))
+
+    # ---- 2. key closure and unpack closure: round trip over all 2^24 triples ------------------------------------------
+    ctx = E.ctx()
+    r, g, b = (ctx.fresh_scalar(("bv", 8, False), n) for n in ("red", "green", "blue"))
+    ex = sym.Executor(ctx, models=[(r"^core::num::<impl u32>::from_be_bytes$", m_from_be)] + BASE_MODELS, feasibility=E.feasibility(ctx), max_paths=20)
+    paths = [p for p in ex.run(f_key, [sym.Opaque("closure", "self", ctx), sym.Agg("tuple", None, {"0": r, "1": g, "2": b})]) if p.status == "return"]
+    rec.paths += len(paths)
+    key = paths[0].ret if len(paths) == 1 and isinstance(paths[0].ret, sym.Scalar) else None
+    if key is None:
+        _inconclusive(rec, "the key closure is one straight-line path returning a u32")
+    else:
+        want = "(= %s (concat %s %s %s %s))" % (key.term, bvlit(0, 8), r.term, g.term, b.term)
+        rec.add("key closure: the key of (r, g, b) is 0x00RRGGBB", E.decide(ctx, paths[0].pc + ["(not %s)" % want], model_names=[r.term, g.term, b.term]), {"lift": "namedcolor"})
+        news = []
+
+        def m_new(ex, st, c, a, d):
+            news.append([_full(ex, st, x) for x in a])
+            return sym.Opaque(d or "Rgba", "rgba", ctx)
+
+        def m_into(ex, st, c, a, d):
+            return sym.cast(a[0], "u8", "f64", "IntToFloat")
+
+        ex = sym.Executor(ctx, models=[(r"^core::num::<impl u32>::to_be_bytes$", m_to_be), (r"^<u8 as std::convert::Into<f64>>::into$", m_into), (r"^Rgba::new$", m_new)] + BASE_MODELS,
+                          feasibility=E.feasibility(ctx), max_paths=20)
+        keybox = sym.Scalar(("bv", 32, False), key.term)
+        p2 = [p for p in ex.run(f_unpack, [sym.Opaque("closure", "self", ctx), sym.Ref("val", keybox)]) if p.status == "return"]
+        rec.paths += len(p2)
+        fmts = E.load_enum("value/colors/rgba.rs", "RgbFormat")
+        if len(p2) != 1 or len(news) != 1 or len(news[0]) != 5 or not all(isinstance(x, sym.Scalar) for x in news[0][:4]):
+            _inconclusive(rec, "the unpack closure of from_name is one path with one Rgba::new call")
+        else:
+            a = news[0]
+            f64 = lambda t: "((_ to_fp_unsigned 11 53) RNE %s)" % t  # noqa: E731
+            want = "(and (= %s %s) (= %s %s) (= %s %s) (= %s ((_ to_fp 11 53) RNE 1.0)))" % (a[0].term, f64(r.term), a[1].term, f64(g.term), a[2].term, f64(b.term), a[3].term)
+            rec.add("round trip: unpacking the key of (r, g, b) builds Rgba::new(r, g, b, 1.0, _) — red, green, blue in this order, opaque — for all 2^24 triples",
+                    E.decide(ctx, paths[0].pc + p2[0].pc + ["(not %s)" % want], model_names=[r.term, g.term, b.term]), {"lift": "namedcolor"})
+            src = a[4]
+            okf = isinstance(src, sym.Agg) and src.variant == "Name" or (isinstance(src, sym.Scalar) and src.term == bvlit(fmts.index("Name"), 64))
+            rec.add("the colour built from a name has source format Name", _structural(bool(okf), repr(src)[:60]))
+
+    # ---- 3. the two lookups use v2n with the key and n2v with the lower-cased name -----------------------------------
+    for what, f, field, mapty in (("name's lookup closure", f_get, "1", "BTreeMap::<u32, &str>::get"), ("from_name", f_from, "0", "BTreeMap::<&str, u32>::get")):
+        ctx = E.ctx()
+        gets = []
+        lookup = sym.Opaque("Lookup", "LOOKUP", ctx)
+        lowered = sym.Opaque("String", "lower-cased-name", ctx)
+
+        def m_get(ex, st, c, a, d, gets=gets, ctx=ctx):
+            gets.append((_full(ex, st, a[0]), _full(ex, st, a[1]), list(st.pc)))
+            some, none = st.fork(), st.fork()
+            return [(some, sym.Agg(d, "Some", {"0": sym.Ref("val", sym.Opaque("entry", "found", ctx))}, 1)), (none, sym.Agg(d, "None", {}, 0))]
+
+        models = [(r"^%s::<" % re.escape(mapty), m_get), (r"^<LazyLock<Lookup> as Deref>::deref$", lambda ex, st, c, a, d, lookup=lookup: sym.Ref("val", lookup)),
+                  (r"^(std|core|alloc)::str::<impl str>::to_lowercase$", lambda ex, st, c, a, d, lowered=lowered: lowered),
+                  (r"^<String as Deref>::deref$", lambda ex, st, c, a, d: a[0])] + BASE_MODELS
+        ex = sym.Executor(ctx, models=models, feasibility=E.feasibility(ctx), max_paths=60)
+        arg = sym.Scalar(("bv", 32, False), ctx.fresh_scalar(("bv", 32, False), "key").term) if f is f_get else sym.Opaque("&str", "name", ctx)
+        try:
+            ps = [p for p in ex.run(f, [sym.Opaque("closure", "self", ctx), arg] if f is f_get else [arg]) if p.status == "return"]
+        except sym.Unsupported as e:
+            rec.notes.append("%s: %s" % (what, str(e)[:160]))
+            ps = []
+        rec.paths += len(ps)
+        good = bool(ps) and bool(gets)
+        for m, k, _pc in gets:
+            good = good and m is not None and m is lookup.children.get(field)
+            if f is f_get:
+                good = good and isinstance(k, sym.Scalar) and k.term == arg.term
+            else:
+                good = good and (k is lowered or getattr(k, "name", None) == "lower-cased-name")
+        rec.add("%s reads LOOKUP.%s (%s) with %s" % (what, {"1": "v2n", "0": "n2v"}[field], mapty.split("::get")[0], "the key it was given" if f is f_get else "the lower-cased name"), _structural(good, "%d lookups" % len(gets)))
+    
+    # ---- 4. Lookup::from_slice: every row (n, v) goes into both maps ---------------------------------------------------
+    ctx = E.ctx()
+    n2v, v2n = sym.Opaque("BTreeMap<&str, u32>", "n2v", ctx), sym.Opaque("BTreeMap<u32, &str>", "v2n", ctx)
+    K = 2 if tier == "quick" else 3
+    rows = [(sym.Opaque("&str", "row-name-%d" % i, ctx), ctx.fresh_scalar(("bv", 32, False), "row_value_%d" % i)) for i in range(K)]
+
+    def m_next(ex, st, c, a, d):
+        i = sum(1 for e in st.events if e.callee == "row")
+        none = st.fork()
+        out = [(none, sym.Agg(d, "None", {}, 0))]
+        if i < K:
+            some = st.fork()
+            some.events.append(sym.Event("row", [], i, len(st.pc)))
+            out.append((some, sym.Agg(d, "Some", {"0": sym.Ref("val", sym.Agg("tuple", None, {"0": rows[i][0], "1": rows[i][1]}))}, 1)))
+        return out
+
+    def ev(name):
+        def m(ex, st, c, a, d):
+            e = sym.Event(name, a, None, len(st.pc))
+            e.rargs = [_full(ex, st, x) for x in a]
+            e.ret = sym.Opaque(d or "?", name + "-result", ctx)
+            st.events.append(e)
+            return e.ret
+        return m
+
+    models = [(r"^BTreeMap::<&str, u32>::new$", lambda ex, st, c, a, d: n2v), (r"^BTreeMap::<u32, &str>::new$", lambda ex, st, c, a, d: v2n),
+              (r"^<&\[\(&str, u32\)\] as IntoIterator>::into_iter$", lambda ex, st, c, a, d: sym.Opaque(d or "Iter", "rows", ctx)),
+              (r"^<std::slice::Iter<'_, \(&str, u32\)> as Iterator>::next$", m_next),
+              (r"^BTreeMap::<&str, u32>::insert$", ev("insert")), (r"^BTreeMap::<u32, &str>::entry$", ev("entry")),
+              (r"Entry::<'_, u32, &str>::or_insert$", ev("or_insert"))] + BASE_MODELS
+    ex = sym.Executor(ctx, models=models, feasibility=E.feasibility(ctx), max_paths=60)
+    try:
+        ps = [p for p in ex.run(f_slice, [sym.Opaque("&[(&str, u32)]", "data", ctx)]) if p.status == "return"]
+    except sym.Unsupported as e:
+        rec.notes.append("from_slice: %s" % str(e)[:160])
+        ps = []
+    rec.paths += len(ps)
+    good = len(ps) == K + 1
+    for p in ps:
+        nrows = sum(1 for e in p.events if e.callee == "row")
+        calls = [e for e in p.events if e.callee in ("insert", "entry", "or_insert")]
+        good = good and len(calls) == 3 * nrows
+        for i in range(nrows):
+            if not good:
+                break
+            ins, ent, ori = calls[3 * i: 3 * i + 3]
+            n, v = rows[i]
+            good = (ins.callee == "insert" and ins.rargs[0] is n2v and ins.rargs[1] is n and isinstance(ins.rargs[2], sym.Scalar) and ins.rargs[2].term == v.term
+                    and ent.callee == "entry" and ent.rargs[0] is v2n and isinstance(ent.rargs[1], sym.Scalar) and ent.rargs[1].term == v.term
+                    and ori.callee == "or_insert" and ori.rargs[0] is ent.ret and ori.rargs[1] is n)
+        ret = p.ret
+        good = good and isinstance(ret, sym.Agg) and _full(ex, None, ret.fields.get("0", ret.fields.get("n2v"))) is n2v and _full(ex, None, ret.fields.get("1", ret.fields.get("v2n"))) is v2n
+    rec.add("Lookup::from_slice (up to %d rows): each row (n, v) is stored as n2v.insert(n, v) and v2n.entry(v).or_insert(n) — the same pair in both maps — and the two maps are returned as (n2v, v2n)" % K,
+            _structural(bool(good), "%d paths" % len(ps)))
+
+    # ---- 5. the table itself (read from the promoted constant of the LOOKUP initialiser) -------------------------------
+    ctx = E.ctx()
+    got = []
+
+    def m_from_slice(ex, st, c, a, d):
+        got.append(_full(ex, st, a[0]))
+        return sym.Opaque(d or "Lookup", "lookup", ctx)
+
+    ex = sym.Executor(ctx, models=[(r"^Lookup::from_slice$", m_from_slice)] + BASE_MODELS, feasibility=E.feasibility(ctx), max_paths=10)
+    try:
+        ps = [p for p in ex.run(f_init, [sym.Opaque("&closure", "init", ctx)]) if p.status == "return"]
+    except sym.Unsupported as e:
+        rec.notes.append("LOOKUP initialiser: %s" % str(e)[:160])
+        ps = []
+    rec.paths += len(ps)
+    table = []
+    arr = got[0] if len(got) == 1 else None
+    if isinstance(arr, sym.Agg):
+        for k in sorted(arr.fields, key=lambda z: int(z) if str(z).isdigit() else -1):
+            t = _full(ex, None, arr.fields[k])
+            if isinstance(t, sym.Agg) and isinstance(_full(ex, None, t.fields.get("0")), sym.ConstStr) and isinstance(t.fields.get("1"), sym.Scalar):
+                table.append((_full(ex, None, t.fields["0"]).s, t.fields["1"].term))
+    if len(ps) != 1 or len(table) < 100:
+        _inconclusive(rec, "the LOOKUP initialiser passes one literal table to Lookup::from_slice (%d rows read)" % len(table))
+    else:
+        names = [n for n, _ in table]
+        dup = sorted({n for n in names if names.count(n) > 1})
+        rec.add("table (%d rows): names are pairwise distinct, so n2v[n] is the value of n's only row and n2v[v2n[v]] = v" % len(table), _structural(not dup, ", ".join(dup)))
+        notlow = sorted(n for n in names if not re.fullmatch(r"[a-z]+", n))
+        rec.add("table: every name is a lower-case ASCII word (from_name looks up the lower-cased spelling; the word is a valid CSS identifier)", _structural(not notlow, ", ".join(notlow)))
+        ctx2 = E.ctx()
+        big = "(or false %s)" % " ".join("(bvugt %s %s)" % (v, bvlit(0xffffff, 32)) for _n, v in table)
+        rec.add("table: every value fits 24 bits (the byte unpacked as `_` is zero, so key(unpack(v)) = v)", E.decide(ctx2, [big]))
+        rec.table_rows = len(table)
+    rec.notes.append("names are checked against rsass's own reading of names (Rgba::from_name); whether the table's values are the CSS named colours is outside (no reference table in this image)")
+    return rec
